@@ -54,7 +54,7 @@ D_POST = """proof { let accs = choose|accs: Seq<u128>| #[trigger] try_fold_decid
 UNIT = Unit(
     name="batch", lemma_obs=['lemma_batch_core_perm', 'lemma_marker_kept', 'lemma_faucet_once', 'lemma_markers_batch'], uses="group_core_axioms",
     prelude=["core.rs", "raw.rs", "iter.rs", "crypto.rs", "state_abs.rs", "melvm_abs.rs", "txmethods.rs", "num.rs", "melpow.rs"],
-    lemmas=["sums.rs", "iterlem.rs", "coinsview.rs", "header.rs", "txroot_opaque.rs", "seal_opaque.rs", "tips.rs", "apply.rs", "apply_c04.rs", "microergs.rs", "dosc.rs", "stateinv.rs", "batch_def.rs", "feemul.rs", "seal_def.rs"],
+    lemmas=["sums.rs", "iterlem.rs", "coinsview.rs", "header.rs", "txroot_opaque.rs", "seal_opaque.rs", "tips.rs", "apply.rs", "apply_c04.rs", "microergs.rs", "chaininv.rs", "dosc.rs", "stateinv.rs", "batch_def.rs", "feemul.rs", "seal_def.rs"],
     items=[
         TypeItem(S, "struct", "UnsealedState"),
         TypeItem(S, "enum", "StateError", derive="#[derive(Clone, Copy, PartialEq, Eq, Structural)]"),
@@ -151,6 +151,7 @@ UNIT = Unit(
                         assert(next_state.stakes@ =~= s0.stakes@.union_prefer_right(nsm));
                         assert(batch_core_with(s0, tq, next_state, rel, nsm));
                         if markers_ok(s0.coins@.coins) { lemma_markers_batch(s0, tq, next_state, rel, nsm); }
+                        lemma_batch_hinv(s0, tq, next_state, rel, nsm);
                         assert(state_inv(next_state)); }""")],
            loops=[Loop(0, binder="it", body_entry="proof { assert(it.seq()[it.index@ as int] == (k, v)); }",
                        invariants=[
